@@ -21,7 +21,9 @@ def simulate_facts(ctx, cls, init_given):
         raise AnalysisError(f"anchor vanished: {cls}.simulate")
     o = Obj(cls, "stock")
     kw = dict(n_paths=W.integer("N"), time_horizon=W.fl("h"))
-    if init_given:
+    if init_given == "scalar":
+        kw["init_state"] = Sym("init_scalar", ("float",))
+    elif init_given:
         d = default_init(ctx, cls)
         n = len(d) if isinstance(d, (tuple, list)) else 1
         kw["init_state"] = tuple(Sym(f"init{k}", ("float",)) for k in range(n))
@@ -43,3 +45,39 @@ def default_init(ctx, cls):
     o = Obj(cls, "stock")
     res = [r for r in interp.explore(fi, [], {}, self_obj=o) if not r["raises"]]
     return res[0]["value"] if res else None
+
+
+def init_forwarding_rule(ctx, run, rule, classes=None):
+    """A start value the caller gives reaches the generator as given on every path: as a tuple or in the scalar form the generators
+    accept (cast_state).  A truthiness test (`init_state or default`) replaces a start at zero by the default."""
+    from .report import Finding
+    prog = ctx.prog
+    classes = classes or primary_classes(prog)
+    run.require(rule, len(classes))
+    for cls in classes:
+        short = cls.rsplit(".", 1)[-1]
+        d = default_init(ctx, cls)
+        forms = (True, "scalar") if isinstance(d, (tuple, list)) and len(d) == 1 else (True,)  # the scalar form stands for a one-component state
+        for form in forms:
+            sim, facts = simulate_facts(ctx, cls, form)
+            if not facts:
+                raise AnalysisError(f"{cls}.simulate: no analysable path with init_state given")
+            bad = []
+            for f in facts:
+                g = f["gen"]
+                if g is None:
+                    bad.append("no generator call")
+                    continue
+                ini = g["kwargs"].get("init_state")
+                if form == "scalar":
+                    ok = isinstance(ini, Sym) and ini.name == "init_scalar"
+                else:
+                    ok = isinstance(ini, tuple) and all(isinstance(x, Sym) and x.name == f"init{k}" for k, x in enumerate(ini))
+                if not ok:
+                    conds = ", ".join(f"{str(c)[:40]}={d}" for c, d, _ in f["path"]["cond"])
+                    bad.append(f"on the path [{conds}] the generator starts from {str(ini)[:60]}")
+            run.oblige(rule, f"{short}.simulate forwards a given init_state ({'scalar' if form == 'scalar' else 'tuple'}) on every path", not bad, "; ".join(bad))
+            if bad:
+                run.fail(Finding(rule, sim.qualname, f"init_state given as a {'scalar' if form == 'scalar' else 'tuple'}: {bad[0]}"[:300],
+                                 "the simulation does not start from the value the caller asked for", file=str(prog.modules[sim.module].path), line=sim.node.lineno,
+                                 case="scalar" if form == "scalar" else "tuple"))
